@@ -157,15 +157,6 @@ Proof.
   exact H.
 Qed.
 
-Lemma symx_ml_insert w ir i v : symx (fst (ml_insert w ir i v)) = symx w.
-Proof.
-  unfold ml_insert. pose proof (symx_ml_add_hook w ir v) as H.
-  destruct (ml_add_hook w ir v) as [w1 ok]. exact H.
-Qed.
-
-Lemma symx_ml_append w ir v : symx (fst (ml_append w ir v)) = symx w.
-Proof. apply symx_ml_insert. Qed.
-
 Lemma symx_ml_assign w ir new : symx (fst (ml_assign w ir new)) = symx w.
 Proof.
   unfold ml_assign. cbv zeta.
@@ -177,6 +168,13 @@ Proof.
     destruct (fold_ok F L w1) as [w2 ok2] end.
   cbn [fst] in *. rewrite <- H1, <- H2. reflexivity.
 Qed.
+
+(* insert / append are slice assignments *)
+Lemma symx_ml_insert w ir i v : symx (fst (ml_insert w ir i v)) = symx w.
+Proof. unfold ml_insert. cbv zeta. apply symx_ml_assign. Qed.
+
+Lemma symx_ml_append w ir v : symx (fst (ml_append w ir v)) = symx w.
+Proof. apply symx_ml_insert. Qed.
 
 Lemma symx_flagged' r w w' : symx (fst r) = symx w -> flagged r = Ok w' -> symx w' = symx w.
 Proof. intros H1 H2. rewrite (symx_flagged _ _ H2). exact H1. Qed.
